@@ -92,13 +92,13 @@ theorem bind_eq_ok {α β} {x : R α} {f : α → R β} {b : β} (h : x >>= f = 
   | ok a => exact ⟨a, rfl, h⟩
 
 def KidOk : RspKid → Prop
-  | .error code _ _ => ∃ v, pyInt code = some v
+  | .error code _ _ => ∃ v, pyIntLim code = some v
   | _ => True
 
 theorem catchV_pyIntE_ok (code : Str) (v : Int) (h : catchExc [.valueError] (pyIntE code) = .ok v) :
-    pyInt code = some v := by
+    pyIntLim code = some v := by
   unfold pyIntE at h
-  cases hp : pyInt code with
+  cases hp : pyIntLim code with
   | none => simp [hp, Resp.catchExc] at h
   | some w => simp [hp, Resp.catchExc] at h; simp [h]
 
@@ -247,7 +247,7 @@ theorem responseKids_safe (a b : String) (meth : Str) (m : Msg) : Safe Doc (resp
   unfold responseKids; safe
 
 /-- `raise CIMError(int(CODE))` cannot leak ValueError once parse_error has accepted the CODE -/
-theorem raiseCimError_safe (code : Str) (h : ∃ v, pyInt code = some v) : Safe Doc (raiseCimError code) := by
+theorem raiseCimError_safe (code : Str) (h : ∃ v, pyIntLim code = some v) : Safe Doc (raiseCimError code) := by
   obtain ⟨v, hv⟩ := h
   unfold raiseCimError pyIntE
   simp only [hv]
